@@ -106,7 +106,7 @@ def info_valid(ctx, rule="INFO-VALID"):
                 continue
             nme = cname(prog, f.blocks[L.call_block]["term"])
             eqs = [[L.val(a) for a in t["args"]] for b, t in L.fn.calls() if re.search(r"PartialEq.*::eq$", cname(prog, t))]
-            if nme.endswith("Iterator::any") and any("p1.enum_values" in " ".join(a) and "p2@Str.0" in " ".join(a) for a in eqs):
+            if re.search(r"Iterator>?::any$", nme) and any("p1.enum_values" in " ".join(a) and "p2@Str.0" in " ".join(a) for a in eqs):
                 ok = has_fact(S, L.call_block, r"is_empty\(&\*p1\.enum_values\)", False)
     ctx.check(ok, rule, "enumeration membership", "", "is_valid_value does not test enumeration membership (when an enumeration is set)", f.loc(), fn=f.name, key=rule + "|enum")
     # cross-type arms are constant false: Int in Str column, Str in Int column
